@@ -24,7 +24,7 @@ func init() {
 		Assumptions: []string{"signers are well-behaved or erroring / empty-returning as the property scopes it", "Go crypto primitives are correct"},
 		Real:        []string{"github.com/veraison/go-cose (sign.go and what it calls)", "github.com/fxamacker/cbor/v2", "Go crypto"},
 		Stubs:       []string{"cose.Signer / cose.Verifier recording wrappers with injectable failure", "lossy channel for COSE_Signature elements", "foreign peer (reference model)", "entropy source"},
-		QuickRuns:   10000, ThoroughRuns: 400000,
+		QuickRuns:   300000, ThoroughRuns: 4000000,
 	}
 }
 
